@@ -9,6 +9,7 @@ import (
 	"strconv"
 	"strings"
 
+	"vharness/internal/core"
 	"vharness/internal/impl"
 	"vharness/internal/refsem"
 	"vharness/internal/sess"
@@ -108,7 +109,7 @@ func knownReadmeDisagreement(int) bool { return false }
 
 func testCalcInputs() ([]string, error) {
 	fset := token.NewFileSet()
-	f, err := goparser.ParseFile(fset, "/repo/cmd/calc/calc_test.go", nil, 0)
+	f, err := goparser.ParseFile(fset, core.RepoDir()+"/cmd/calc/calc_test.go", nil, 0)
 	if err != nil {
 		return nil, err
 	}
